@@ -20,6 +20,10 @@ Match(e) ==
      /\ e.storeP1 = stored /\ e.storeP2 = stored
      /\ ObsRet(e.litP1) = getter /\ ObsRet(e.litP2) = getter
      /\ ObsRet(e.decP1) = getter /\ ObsRet(e.decP2) = getter
+     \* the setter's verdict is independent of what the claims-set holds; a refused value leaves the old one
+     /\ ObsRet(e.heldP1) = setter /\ ObsRet(e.heldP2) = setter
+     /\ ObsRet(e.overP1) = setter /\ ObsRet(e.overP2) = setter
+     /\ e.keptP1 = (IF ok THEN IntV(v) ELSE IntV(12288)) /\ e.keptP2 = (IF ok THEN IntV(v) ELSE IntV(12288))
 Init == l = 1 /\ bad = <<>>
 Next == /\ l <= Len(Trace) /\ l' = l + 1
         /\ bad' = IF Match(Trace[l]) THEN bad ELSE Append(bad, l)
